@@ -88,7 +88,9 @@ def locations(root, skip_hidden=False, compact=False):
     def emit(path, kind, digest):
         out[path] = (kind, digest)
 
-    def visit(x, path):
+    def expand(x, path, kids):
+        """emits the location(s) of x and appends its children to kids (no recursion: documents may
+        be nested deeper than the interpreter's recursion limit allows)"""
         if compact:
             path = _compact(path)
         if isinstance(x, ATOMIC):
@@ -130,27 +132,27 @@ def locations(root, skip_hidden=False, compact=False):
             emit(path, 'field', _h('ElementTree'))
             r = x.getroot()
             if r is not None:
-                visit(r, path + '/')
+                kids.append((r, path + '/'))
             return
         if is_element(x):
             emit(path, 'xml', _h(x.tag, sorted(x.attrib.items()), repr(x.text), repr(x.tail), len(x)))
             for i, c in enumerate(x):
-                visit(c, '%s/%d' % (path, i))
+                kids.append((c, '%s/%d' % (path, i)))
             return
         if isinstance(x, (list, tuple)):
             emit(path + '#', 'structure', _h(type(x).__name__, len(x)))
             for i, c in enumerate(x):
-                visit(c, '%s[%d]' % (path, i))
+                kids.append((c, '%s[%d]' % (path, i)))
             d = getattr(x, '__dict__', None)
             if d:
                 for a, v in d.items():
-                    visit(v, '%s.%s' % (path, a))
+                    kids.append((v, '%s.%s' % (path, a)))
             return
         if isinstance(x, dict):
             keys = sorted(x.keys(), key=repr)
             emit(path + '#', 'structure', _h('dict', [scrub(repr(q)) for q in keys]))
             for q in keys:
-                visit(x[q], '%s{%s}' % (path, scrub(repr(q))))
+                kids.append((x[q], '%s{%s}' % (path, scrub(repr(q)))))
             return
         if isinstance(x, (set, frozenset)):
             emit(path + '#', 'structure', _h('set', sorted(scrub(repr(q)) for q in x)))
@@ -167,13 +169,21 @@ def locations(root, skip_hidden=False, compact=False):
             if a in HIDDEN_ATTRS:
                 deferred.append((v, '%s.%s' % (path, a)))
             else:
-                visit(v, '%s.%s' % (path, a))
+                kids.append((v, '%s.%s' % (path, a)))
 
-    visit(root, '')
+    def walk(x, path):
+        stack = [(x, path)]
+        while stack:
+            y, q = stack.pop()
+            kids = []
+            expand(y, q, kids)
+            stack.extend(reversed(kids))       # preorder, children in their own order
+
+    walk(root, '')
     if not skip_hidden:
         while deferred:
             v, p = deferred.pop(0)
-            visit(v, p)
+            walk(v, p)
     return out
 
 
